@@ -312,3 +312,55 @@ PLAN['C14'] = {
     'quick': lambda seed: runs('h_erode', RASTER4, 'asan', 3, 1200),
     'thorough': lambda seed: runs('h_erode', RASTER4, 'asan', 4, 15000),
 }
+
+
+# ------------------------------------------------------------------------------------------------ concurrency harness (h_conc)
+PLAN['C11'] = {
+    'rule': 'Histories of the grammar the library issues, driven on the pool directly: pool(size 1..16); (resume; resize(1..16 or '
+            'unchanged); 0-4 x run_blocks(first in {0,5,1000}, length in {0,1,2,n-1,n,n+1,37,1000,2000|5000}, min_size in '
+            '{0,1,3,len,len+1,1e6}); pause | destroy) x 1-4; destroy (paused / running / never started); every 4th case drives the '
+            'pool through flow-graph histories (parallel router + kernels with changing thread counts). Monitors read immediately '
+            'after run_blocks returns: per-index counters (all 1 inside, 0 in guard zones), callback writes to plain memory, one '
+            'block per runner id, blocks contiguous / disjoint / covering the range / at most pool size, no callback of an earlier '
+            'dispatch. asan flavour: seeded delay plans at the pool schedule points (random everywhere, hold workers between '
+            '"counted" and the condition-variable wait, hold workers before clearing their flag, hold the caller around publish / '
+            'notify, stagger worker starts) + lost-wake-up detector over the hook event log. tsan flavour: same histories, every '
+            'ThreadSanitizer report is a violation. Termination: a case that makes no progress is killed by the watchdog and re-run; '
+            'hanging twice is a violation. Non-trivial: >= 1 dispatch. distinct = distinct history hashes.',
+    'floor': ['c11.dispatches', 'c11.dispatches_with_2+_blocks', 'c11.dispatches_with_overlapping_blocks',
+              'c11.dispatches_range_shorter_than_pool', 'c11.pauses', 'c11.destroy_paused', 'c11.destroy_running',
+              'c11.delay_plan.hold_worker_after_counted', 'hook.pausejob.counted', 'hook.resume.after_notify', 'delays_injected',
+              'distinct_event_orders_max'],
+    'assumptions': ['interleavings are sampled (delay injection + repetition), not enumerated',
+                    'the memory-model clause rests on ThreadSanitizer\'s happens-before analysis of the executed accesses',
+                    'lost wake-up is reported only when a worker counted itself paused before the last notification, was not woken '
+                    'for > 8 s and the caller spun > 2e6 times'],
+    'max_parallel': 4,
+    'quick': lambda seed: runs('h_conc', ['raster_queen', 'trimesh'], 'asan', 2, 60, case_timeout=120)
+                          + runs('h_conc', ['raster_queen'], 'tsan', 2, 30, ['--x-delays', '0'], case_timeout=300)
+                          + runs('h_conc', ['profile_nc'], 'tsan', 1, 12, ['--x-delays', '1'], case_timeout=300),
+    'thorough': lambda seed: runs('h_conc', CONC5, 'asan', 2, 600, case_timeout=300)
+                             + runs('h_conc', CONC5, 'tsan', 1, 150, ['--x-delays', '0'], case_timeout=900)
+                             + runs('h_conc', ['raster_queen', 'trimesh'], 'tsan', 1, 100, ['--x-delays', '1'], case_timeout=900),
+}
+
+PLAN['C10'] = {
+    'rule': 'Per case: a random grid (cached raster, cache-less raster, cached / cache-less profile, triangular mesh; >= 24 nodes), '
+            'a sequential reference graph on its own grid object and a graph whose single-direction router uses t in 2..16 threads '
+            '(sequences: router only, pflood + router, router + spanning-tree resolver, router + snapshot + multiple router); 1-3 '
+            'updates with changing fields / masks / base levels, each parallel update repeated; after each update a breadth-first '
+            'upstream (order dependent) and an any-order C++ kernel applied with (n_threads in 2..16, min_block in {0,1,7,1e6}, '
+            'min_level in {0,1,50,1e6}), so the pool is resumed / resized / paused between calls. Oracle: receivers, distances, '
+            'weights, donors, dfs, bfs + levels, accumulate(1) and kernel outputs bit-identical to the sequential execution; every '
+            'node visited exactly once by a kernel. asan flavour with seeded delay plans at the pool hooks; tsan flavour of the same '
+            'workload (every report is a violation). distinct = distinct (grid, operators, inputs) hashes; evidence reports distinct '
+            'hook event orders observed and the number of runs whose blocks overlapped in time.',
+    'floor': ['c10.parallel_updates_compared', 'c10.parallel_kernels_compared', 'c10.updates_with_overlapping_blocks',
+              'c10.kernels_with_overlapping_blocks', 'delays_injected', 'distinct_event_orders_max'],
+    'assumptions': ['interleavings are sampled, not enumerated', 'ThreadSanitizer happens-before analysis for the race clause'],
+    'max_parallel': 4,
+    'quick': lambda seed: runs('h_conc', CONC5, 'asan', 1, 30, case_timeout=120)
+                          + runs('h_conc', CONC5, 'tsan', 1, 8, ['--x-delays', '0', '--x-repeats', '1'], case_timeout=300),
+    'thorough': lambda seed: runs('h_conc', CONC5, 'asan', 2, 400, case_timeout=300)
+                             + runs('h_conc', CONC5, 'tsan', 1, 120, ['--x-delays', '0'], case_timeout=900),
+}
